@@ -51,10 +51,38 @@ SplitInvariance ==
       \A n \in Nodes(Cfg) : SplitOK(Cfg, n) =>
           \A i \in 1..NCheck(Cfg) :
               SiteAt(Split(Cfg, n), ExtCol(ColI(Cfg, i), Len(Cfg.par) + 1), 1) = SiteAt(Cfg, ColI(Cfg, i), 1)
+(* --- parameter scopes given root-independently ----------------------------------------------------------------- *)
+(* A scope "the clade of tips t1 and t2 as seen from the outgroup tip og" (set_param_rule(tip_names=[t1,t2],       *)
+(* outgroup_name=og, clade=..., stem=...)) names EDGES OF THE UNROOTED TREE: with j the node where the three paths   *)
+(* between t1, t2 and og meet, the clade is every edge not in the component of (tree - j) that holds og, and the     *)
+(* stem is the edge from j towards og.  Nothing in it refers to the root.                                            *)
+Adj(c) == {{n, c.par[n]} : n \in {m \in Nodes(c) : c.par[m] # 0}}
+Nbrs(c, n) == {m \in Nodes(c) : {n, m} \in Adj(c)}
+RECURSIVE Reach(_, _, _, _)
+Reach(c, j, frontier, seen) ==
+    IF frontier = {} THEN seen
+    ELSE LET nxt == (UNION {Nbrs(c, x) : x \in frontier}) \ (seen \cup {j})
+         IN  Reach(c, j, nxt, seen \cup nxt)
+Comp(c, j, x) == Reach(c, j, {x}, {x})        \* the component of (tree - j) containing x
+Join(c, t1, t2, og) == CHOOSE j \in Nodes(c) \ {t1, t2, og} :
+                          /\ Comp(c, j, t1) # Comp(c, j, t2)
+                          /\ og \notin Comp(c, j, t1) \cup Comp(c, j, t2)
+CladePairs(c, t1, t2, og) == LET j == Join(c, t1, t2, og) IN {e \in Adj(c) : e \cap Comp(c, j, og) = {}}
+StemPair(c, t1, t2, og) == LET j == Join(c, t1, t2, og) IN CHOOSE e \in Adj(c) : j \in e /\ e \cap Comp(c, j, og) # {}
+Triples(c) == {tr \in Leaves(c) \X Leaves(c) \X Leaves(c) : tr[1] # tr[2] /\ tr[1] # tr[3] /\ tr[2] # tr[3]}
+ScopeIsRootFree ==
+    \A r \in Inner(Cfg) : \A tr \in Triples(Cfg) :
+        /\ CladePairs(Reroot(Cfg, r), tr[1], tr[2], tr[3]) = CladePairs(Cfg, tr[1], tr[2], tr[3])
+        /\ StemPair(Reroot(Cfg, r), tr[1], tr[2], tr[3]) = StemPair(Cfg, tr[1], tr[2], tr[3])
+(* the name of an edge is the name of its child end in the configuration's own rooting *)
+EdgeNameOf(c, e) == c.edgename[CHOOSE n \in e : c.par[n] \in e]
 (* --- transformation instances handed to the harness ---------------------- *)
 TStepT == k <= Len(Configs) /\ k' = k + 1
 TStep == TStepT /\ Emit([act |-> "Transforms", id |-> Cfg.id, newick |-> Cfg.newick,
                          roots |-> {Cfg.edgename[r] : r \in Inner(Cfg) \ {1}},
+                         scopes |-> {<<Cfg.leafname[tr[1]], Cfg.leafname[tr[2]], Cfg.leafname[tr[3]],
+                                       {EdgeNameOf(Cfg, e) : e \in CladePairs(Cfg, tr[1], tr[2], tr[3])},
+                                       EdgeNameOf(Cfg, StemPair(Cfg, tr[1], tr[2], tr[3]))>> : tr \in Triples(Cfg)},
                          splits |-> {<<Cfg.edgename[n], S1(Cfg.s[n]), S2(Cfg.s[n])>> : n \in {x \in Nodes(Cfg) : SplitOK(Cfg, x) /\ Cfg.qpow = 1}}])
 TSpec == Init /\ [][TStep]_vars
 =============================================================================
